@@ -88,6 +88,8 @@ def h_enum(hx, name):
             hx.prove(isinstance(r2, DOCUMENTED), "%s.from_bits: undefined pattern raises a documented error, got %s" % (name, type(r2).__name__))
         else:
             hx.prove(r2 is not None, "%s.from_bits: never nothing" % name)
+            if r2 is None:
+                return
             y = r2.as_bits()
             hx.prove(E.from_bits(y) is r2 if not hx.symbolic else feq(E.from_bits(y), r2), "%s: as_bits of a decoded member decodes to the same member" % name)
 
